@@ -63,22 +63,45 @@ def wclass(w):
     return 0 if w > 0 else (1 if w == 0 else 2)
 
 
+def percentile_ignored(spec):
+    """elements that elements_to_ignore_percentile ignores: those carrying a weight strictly below the p-th percentile (numpy's
+    default linear interpolation, restated here) of all weights present; elements without the attribute are NOT among them"""
+    p = spec.get("ign_pct")
+    if p is None or not (0 <= p <= 100) or spec["cls"] != "kMinPathErrorCycles":
+        return set()
+    if spec["origin"] == "node":
+        vals = {v: spec["node_w"].get(v) for v in spec["nodes"]}
+    else:
+        vals = {(u, v): w for (u, v, w) in spec["edges"]}
+    present = sorted(Fraction(w) for w in vals.values() if w is not None)
+    if not present:
+        return set()
+    rank = Fraction(p) / 100 * (len(present) - 1)
+    lo = int(rank); hi = min(lo + 1, len(present) - 1)
+    thr = present[lo] + (rank - lo) * (present[hi] - present[lo])
+    return {e for e, w in vals.items() if w is not None and Fraction(w) < thr}
+
+
 def abstract(spec, obs=None):
     G = ci._graph(spec)
     nodes = spec["nodes"]
     a = {}
     a["nodes_str"] = [isinstance(x, str) for x in nodes]
     a["n_edges"] = len(spec["edges"])
-    a["acyclic"] = nx.is_directed_acyclic_graph(G)
+    a["acyclic"] = all(len(c) == 1 for c in nx.strongly_connected_components(G))      # no cycle through two or more nodes
+    a["has_selfloop"] = any(u == v for (u, v, _) in spec["edges"])
+    pc = lambda p: 0 if p is None else (1 if 0 <= p <= 100 else 2)
+    a["ign_pct"] = pc(spec.get("ign_pct")); a["trust_pct"] = pc(spec.get("trust_pct"))
+    pct_ignored = percentile_ignored(spec)
     a["has_source"] = any(G.in_degree(x) == 0 for x in G)
     a["has_sink"] = any(G.out_degree(x) == 0 for x in G)
     a["origin"] = {"edge": 0, "node": 1}.get(spec["origin"], 2)
     a["wtype"] = {"int": 0, "float": 1}.get(spec["wtype"], 2)
     cover = spec["cls"] in ci.IS_COVER
     if spec["origin"] == "node":
-        a["elems"] = [[0 if cover else wclass(spec["node_w"].get(v)), v in spec["ign"]] for v in nodes]
+        a["elems"] = [[0 if cover else wclass(spec["node_w"].get(v)), v in spec["ign"] or v in pct_ignored] for v in nodes]
     else:
-        a["elems"] = [[0 if cover else wclass(w), (u, v) in spec["ign"]] for (u, v, w) in spec["edges"]]
+        a["elems"] = [[0 if cover else wclass(w), (u, v) in spec["ign"] or (u, v) in pct_ignored] for (u, v, w) in spec["edges"]]
     a["conserving"] = conserving(spec)
     k = spec["k"]
     a["k"] = [0, 1] if k is None else ([0, k] if isinstance(k, int) else [1] + common.qtok(k))
@@ -102,7 +125,7 @@ def abstract(spec, obs=None):
 
 def tokens(spec, a):
     return "validate " + common.toks(
-        ci.CLS_ID[spec["cls"]], len(a["nodes_str"]), a["nodes_str"], a["n_edges"], a["acyclic"], a["has_source"], a["has_sink"],
+        ci.CLS_ID[spec["cls"]], len(a["nodes_str"]), a["nodes_str"], a["n_edges"], a["acyclic"], a["has_selfloop"], a["ign_pct"], a["trust_pct"], a["has_source"], a["has_sink"],
         a["origin"], a["wtype"], len(a["elems"]), a["elems"], a["conserving"], a["k"],
         len(a["cons"]), a["cons"], a["cov"], a["cov_len"], a["len_attr"], len(a["starts"]), a["starts"], len(a["ends"]), a["ends"], len(a["ign"]), a["ign"],
         a["search_enters"])
@@ -190,6 +213,8 @@ def applicable(cls, v, spec):
         return False            # documented: conservation is only required without an ignore list
     if v == "neg" and cls == "MinErrorFlow":
         return False            # MinErrorFlow corrects arbitrary weights
+    if v in ("neg", "noncons") and spec.get("ign_pct") is not None:
+        return False            # a negative weight is the smallest one: the percentile would (legitimately) ignore it
     if v in ("start", "end") and cls == "MinErrorFlow" and spec["origin"] == "edge" and not nx.is_directed_acyclic_graph(ci._graph(spec)):
         return False            # documented: additional starts/ends apply only to acyclic graphs
     if v in ("cons_itemint", "cons_item3", "cons_tuple") and spec["origin"] == "node" and not spec["cons"]:
@@ -197,7 +222,7 @@ def applicable(cls, v, spec):
     return True
 
 
-INPLACE = ("neg", "missing", "noncons", "cycle", "nosource", "nosink", "nonstr")
+INPLACE = ("neg", "missing", "noncons", "cycle", "selfloop", "nosource", "nosink", "nonstr")
 
 
 def make_cases(ctx, n_valid, n_pairs):
